@@ -1,6 +1,7 @@
 import WebpVerif.Model.Vp8Kernels
 import WebpVerif.Spec.LoopFilter
 import WebpVerif.Gen.Libwebp
+import WebpVerif.Lemmas.Vp8Ctx
 
 /-!
 # C02 — VP8 key-frame reconstruction is bit-exact
@@ -250,5 +251,27 @@ theorem macroblock_bytes (hv i l : Nat) (e : Edge) (h : edgeBytes e) : edgeBytes
 example : simple 60 ⟨10, 10, 10, 10, 30, 30, 30, 30⟩ ≠ ⟨10, 10, 10, 10, 30, 30, 30, 30⟩ ∧
     subblock 1 20 60 ⟨10, 10, 10, 10, 30, 30, 30, 30⟩ ≠ ⟨10, 10, 10, 10, 30, 30, 30, 30⟩ ∧
     macroblock 1 20 60 ⟨10, 10, 10, 10, 30, 30, 30, 30⟩ ≠ ⟨10, 10, 10, 10, 30, 30, 30, 30⟩ := by decide
+
+/-! ### coefficient contexts -/
+
+/-- **The context bookkeeping of coefficient decoding is the RFC rule.**  `Vp8Ctx.run` models what
+    `decode_frame_` / `read_residual_data` do with the `top[mbx].complexity` and `left.complexity`
+    arrays (nine flags per macroblock column and for the left neighbour: Y2, four luma, two U, two
+    V; `left` cleared at every row start; all but - for B_PRED macroblocks - the Y2 flag zeroed for
+    macroblocks without coefficients; every flag overwritten by the result of the block just
+    read).  For EVERY frame size, every assignment of Y2 / skip flags to macroblocks and every
+    pattern of block results, the context passed to each `read_coefficients` call is the one
+    RFC 6386 section 13.3 defines geometrically: the number of the block's left and above
+    neighbours in its plane (across macroblock borders, 0 outside the frame, skipped macroblocks
+    counting as empty) that have a non-zero coefficient, and for a Y2 block the nearest
+    macroblocks to the left in the row / above in the column that HAVE a Y2 block. -/
+theorem coefficient_contexts_are_rfc (f : Vp8Ctx.Frame) : ∀ c ∈ Vp8Ctx.run f, c.ctx = Vp8Ctx.specCtx f c :=
+  Vp8Ctx.run_spec f
+
+-- non-vacuity: a 2x1 frame; the second macroblock has no Y2 and sees the first one's flags
+def exFrame : Vp8Ctx.Frame :=
+  ⟨2, 1, fun x _ => x == 0, fun _ _ => false, fun _ _ => true, fun bx _ => bx < 4, fun _ _ => false, fun _ _ => true⟩
+example : (Vp8Ctx.run exFrame).length = 49 ∧ ((Vp8Ctx.run exFrame).map (·.ctx)).take 10 = [0, 0, 1, 1, 1, 1, 2, 2, 2, 1] ∧
+    (((Vp8Ctx.run exFrame).map (·.ctx)).drop 25).take 5 = [1, 0, 0, 0, 1] := by decide
 
 end C02
